@@ -45,13 +45,14 @@ JOBS = [
 ] + [
     dict(name='c09_lz4_compress_' + nm, props=['C09', 'C10'], entry='h_lz4_compress', enforce='carquet_lz4_compress',
          replace=['lz4_count'] + LEMMAS, unwindset=UW, min_loop_obligations=mlo,
-         select=sel, timeout=2400, mem_gb=12, backend='cadical', cbmc_flags=['--slice-formula'], replayer=FZ_C, wip=True, tier='thorough', **L9)
+         select=sel, timeout=5400, mem_gb=12, backend='cadical', cbmc_flags=['--slice-formula'], replayer=FZ_C, wip=True, tier='thorough', **L9)
     for nm, sel, mlo in [
         ('assigns', r'\.assigns\.', 0),
         ('deref_kind', r'\.pointer_dereference\.(?!.*outside object bounds)', 0),
         ('deref_bounds', r'\.pointer_dereference\..*outside object bounds|\.array_bounds\.', 0),
         ('invariants', r'^carquet_lz4_compress\.\d+ ', 4),
-        ('asserts_post', r'\.assertion\.|\.postcondition\.', 0),
+        ('asserts', r'\.assertion\.', 0),
+        ('post', r'\.postcondition\.', 0),
         ('rest', r'^(?!.*(\.assigns\.|\.pointer_dereference\.|\.array_bounds\.|\.assertion\.|\.postcondition\.))(?!carquet_lz4_compress\.\d+ )', 0),
     ]
 ] + [
@@ -65,9 +66,8 @@ JOBS = [
          loop_contracts=False, unwind=9, defines=['CQV_N=4', 'CQV_CAP=8'], level='bounded',
          bound='compressed block <= 4 bytes (all byte values), destination capacity 8',
          functions=['carquet_lz4_decompress'], trusted=['specs/lz4_spec.h: block validity read from the LZ4 block format document'],
-         timeout=900, wip=True,
-         note='FINDING: carquet_lz4_decompress accepts blocks the format defines as invalid: zero-length input, a block '
-              'that stops right after a match (e.g. 10 41 01 00 -> OK, 5 bytes), a last literal run < 5 bytes after a match. '
-              'liblz4 rejects all three (/tmp/lz4/demo/reject.c). Memory safe (c08_lz4_decompress); only the reject clause of C10 fails.',
+         timeout=900, est_s=90, wip=False,
+         note='was a FINDING (zero-length input, block ending right after a match, < 5 final literals after a match were '
+              'accepted); repaired upstream in e5ddaab; ok on the fixed tree, VIOLATION again with e5ddaab reverted.',
          **L10),
 ]
